@@ -415,6 +415,14 @@ def build(p):
             c = ctx[cs["id"]]
             E.vsleep(cs.get("D", 0))
             fail = cs["state"] == 5
+            if cs["state"] == 6:
+                # the owner of f cancels it (directly on the input future, not through the wrapper)
+                E.emit("InputSet", f=cs["id"], a=2)
+                E.upoint()
+                from concurrent.futures import Future as _F
+                _F.cancel(c["f"])
+                c["f"].set_running_or_notify_cancel()
+                return
             E.emit("InputSet", f=cs["id"], a=1 if fail else 0)
             E.upoint()
             if fail:
@@ -432,7 +440,7 @@ def build(p):
             for spec in cs.get("callers", ()):
                 E.spawn(spec["name"], caller, cs, spec, spec.get("k", k))
                 k += len(spec["ops"])
-            if cs["state"] in (3, 5):
+            if cs["state"] in (3, 5, 6):
                 E.spawn("comp%d" % cs["id"], completer, cs)
             for spec in cs.get("cancels", ()):
                 E.spawn(spec["name"], canceller, cs, spec)
